@@ -343,6 +343,19 @@ def check_distance(run, rule='R23'):
     branches = {}
     for (r, e, conds) in paths:
         par = [pol for (c, pol) in conds if matches('%s | %s' % (S1, S2), c) is not None or matches('%s.isparallel(%s)' % (S1, S2), c) is not None]
+        if isinstance(e, ast.Constant) and e.value == 0 and not isinstance(e.value, bool):
+            # distance 0 on the strength of a vanishing reciprocal product: valid for NON-parallel lines only (the reciprocal
+            # product of two parallel lines is zero as well -- they are coplanar -- whatever their separation)
+            recip_test = any(pol for (c, pol) in conds if any(isinstance(x, ast.BinOp) and isinstance(x.op, ast.Mult) and
+                                                              {ast.unparse(x.left), ast.unparse(x.right)} == {S1, S2} for x in ast.walk(c)))
+            if recip_test:
+                if par and par[-1] is False:
+                    run.holds(rule, f.key, 'distance 0 for intersecting lines', 'returned only where the lines are not parallel', f=f, node=r)
+                else:
+                    run.violation(rule, f.key, 'distance 0 for intersecting lines', 'distance 0 is returned when the reciprocal product l1 * l2 vanishes '
+                                  'without first excluding parallel lines: two parallel lines are coplanar, so their reciprocal product is zero '
+                                  'whatever their separation, and parallel non-coincident lines get distance 0', f=f, node=r)
+            continue
         if not par:
             continue
         if isinstance(e, ast.Constant) and e.value == 0:
